@@ -51,8 +51,9 @@ def families():
     for name, src in (("verif_hist_s", src_s), ("verif_hist_a", src_a), ("verif_hist_b", src_b), ("verif_hist_r", src_r), ("verif_hist_i", src_i),
                       ("verif_hist_p", src_p)):
         m = types.ModuleType(name)
+        m.__file__ = f"/verif-generated/{name}.py"            # file-backed in the eyes of inspect.getmodule()
         sys.modules[name] = m
-        exec(compile(src + "\nimport typelib\ndef um(ref, x):\n    return typelib.unmarshal(ref, x)\n", name, "exec", dont_inherit=True), m.__dict__)
+        exec(compile(src + "\nimport typelib\ndef um(ref, x):\n    return typelib.unmarshal(ref, x)\n", m.__file__, "exec", dont_inherit=True), m.__dict__)
         mods[name] = m
     A, B, R, I = mods["verif_hist_a"], mods["verif_hist_b"], mods["verif_hist_r"], mods["verif_hist_i"]
     PF = mods["verif_hist_p"]
